@@ -1,3 +1,4 @@
 import P2.Props.C19
 #print axioms P2.Props.C19.sort_canonical
 #print axioms P2.Props.C19.sort_by_key_canonical
+#print axioms P2.Props.C19.neighbor_order_indep
